@@ -38,6 +38,13 @@ func (ex *Exec) parseRegion(src string) (*Term, bool) {
 		case strings.HasPrefix(t, "#x"):
 			v, _ := strconv.ParseUint(t[2:], 16, 64)
 			return st.BV(4*(len(t)-2), v)
+		case strings.HasPrefix(t, "|choice:"):
+			// the value of a vpChoose decision of this path (absent = -1)
+			cv, found := ex.choices[strings.TrimPrefix(strings.Trim(t, "|"), "choice:")]
+			if !found {
+				cv = -1
+			}
+			return st.BVs(64, cv)
 		case strings.HasPrefix(t, "|"):
 			v, found := st.vars[strings.Trim(t, "|")]
 			if !found {
